@@ -3,7 +3,9 @@ PROP = {
     "module": "UmProps.C13",
     "gen_modules": ["ChunkTables", "Consts", "EpochRecovery"],
     "oracle_prefix": "C13",
-    "streams": [{"name": "broker", "harness": "umh_broker", "driver": "broker"}],
+    "streams": [{"name": "broker", "harness": "umh_broker", "driver": "broker",
+                 "timeout": {"quick": 900, "thorough": 9000}}],  # the shared thorough stream needs ~15 min unloaded, far more when
+                                                                 # several broker checks run concurrently
     "search_s": 300,
     "assumptions": [
         "E is the largest epoch installed on any proxy: fetch_max_epoch takes the maximum over the proxies that "
